@@ -2,6 +2,7 @@
 configuration).  Histories x configuration variants are enumerated by TLC from spec/Lsp.tla; the
 published notifications are compared with the specification's expectation (codes) and with a
 library-level twin analysis of the same contents (positions and counts)."""
+import hashlib
 import json
 import re
 import os
@@ -154,7 +155,17 @@ def check_c19(tier):
         n, c = job
         reopen = n >= len(maximal)       # second pass: close a document whenever the next notification is for the other one
         root = os.path.join(base, "s%d" % n)
-        os.makedirs(root, exist_ok=True)
+        # how the client NAMES the workspace: one session in five reaches it through a symbolic link (root and document URIs
+        # carry the link's name); the notifications must come back for exactly the URIs the client opened
+        if int(hashlib.md5(json.dumps([c["cfg"], c["hist"], reopen], sort_keys=True, default=sorted).encode()).hexdigest(), 16) % 5 == 0:
+            os.makedirs(root + "-real", exist_ok=True)
+            os.symlink(root + "-real", root)
+            # the documents EXIST on disk there (empty of fixtures and tests), so that the server can resolve their real location
+            for fn in FNAME.values():
+                with open(os.path.join(root + "-real", fn), "w") as fh:
+                    fh.write("# saved empty\n")
+        else:
+            os.makedirs(root, exist_ok=True)
         pp = pyproject(c["cfg"])
         if pp is not None:
             with open(os.path.join(root, "pyproject.toml"), "wb") as fh:
@@ -184,6 +195,9 @@ def check_c19(tier):
             return {"error": str(e), "published": out}
         finally:
             srv.close()
+            if os.path.islink(root):
+                os.unlink(root)
+                shutil.rmtree(root + "-real", ignore_errors=True)
             shutil.rmtree(root, ignore_errors=True)
         return {"published": out, "alive": alive}
 
@@ -334,6 +348,9 @@ def c17_files(cs):
         body = ["def fx():", "    return 1"] + use_stmt
     elif bind == "global_decl":
         body = ["global fx"] + use_stmt
+    elif bind in ("match_capture", "match_as", "match_star"):
+        pat = {"match_capture": 'case {"status": fx, **rest}:', "match_as": "case [_, *_] as fx:", "match_star": "case [first, *fx]:"}[bind]
+        body = ["match data:", "    " + pat] + ["        " + l for l in use_stmt] + ["    case _:", "        pass"]
     sig = {"param": "a, fx", "param_default": "a, fx=3", "param_annotated": "a, fx: int", "param_posonly": "fx, /, a",
            "param_kwonly": "a, *, fx", "param_kwonly_default": "a, *, fx=\"x\"", "param_vararg": "a, *fx", "param_kwarg": "a, **fx"}.get(bind, "a")
     if bind in ("param", "param_default", "param_annotated", "param_posonly", "param_kwonly", "param_kwonly_default", "param_vararg", "param_kwarg"):
@@ -526,6 +543,21 @@ def check_c17(tier):
                     out["fixed_text"] = new
                     if new is not None:
                         out["diags_after"] = srv.did_change(tpath, new)
+            # a client that is LATE: it asks for code actions with the warning it received for an EARLIER version of the document
+            # (a) after the fix has been applied, (b) after a function was inserted above, exactly where test_t's def line was
+            stale = {}
+            if und:
+                def ask_old():
+                    return srv.request("textDocument/codeAction", {"textDocument": {"uri": lsp.path_to_uri(tpath)},
+                                                                   "range": und[0]["range"], "context": {"diagnostics": [und[0]]}}) or []
+                if out.get("fixed_text") and isinstance(out.get("diags_after"), list):
+                    stale["the fix was already applied"] = {"text": out["fixed_text"], "actions": ask_old()}
+                dl = next((i for i, l in enumerate(lines) if l.startswith(("def test_t(", "async def test_t("))), None)
+                if dl is not None and not lines[dl - 1].startswith("@"):
+                    shifted = "\n".join(lines[:dl] + ["def test_first(q):", "    pass", "", ""] + lines[dl:])
+                    srv.did_change(tpath, shifted, version=3)
+                    stale["a function was inserted above"] = {"text": shifted, "actions": ask_old()}
+            out["stale"] = stale
             out["alive"] = srv.alive()
             return out
         except (lsp.ServerDied, lsp.Timeout) as e:
@@ -598,6 +630,23 @@ def check_c17(tier):
                 V.classify(c17_fix_dev(cs, "wrong_place", label), dict(e2, params=ps), "after the offered %s the fixture is not a parameter of the function" % label)
             if others_dump(tree1, "test_t") != others_dump(tree0, "test_t"):
                 V.classify(c17_fix_dev(cs, "other_fn", label), e2, "the offered %s changes another function" % label)
+        for how, st in (r.get("stale") or {}).items():
+            V.count()
+            try:
+                t0 = _ast.parse(st["text"])
+            except SyntaxError:
+                continue                                   # the applied fix itself was judged above
+            for a in st["actions"]:
+                for k, v in ((a.get("edit") or {}).get("changes") or {}).items():
+                    new = apply_edits(st["text"], v)
+                    e2 = dict(ex, latest_text=st["text"], client_is_late=how, edits=v, result=new)
+                    try:
+                        t1 = _ast.parse(new) if new is not None else None
+                    except SyntaxError as se:
+                        V.violation(dict(e2, syntax_error=str(se)), "a quick fix offered for a warning of an EARLIER version (%s) breaks the latest text" % how)
+                        continue
+                    if t1 is None or others_dump(t1, "test_t") != others_dump(t0, "test_t"):
+                        V.violation(e2, "a quick fix offered for a warning of an EARLIER version (%s) edits another function of the latest text" % how)
         if r.get("fixed_text") and isinstance(r.get("diags_after"), list):
             try:
                 _ast.parse(r["fixed_text"])
